@@ -87,6 +87,7 @@ class SolveResult:
         self.rc = None
         self.stderr = ""
         self.wall = 0.0
+        self.order = []             # s->order[]: the order in which mps_output prints the roots
         self.parsed_degree = None   # degree of the equation as written (before zero roots are deflated)
 
 
@@ -127,6 +128,8 @@ def parse_export(text):
             else:
                 a = (fr_of_mpf(t[3])[0], fr_of_mpf(t[4])[0]); b = (fr_of_mpf(t[5])[0], fr_of_mpf(t[6])[0])
                 poly["sec"].append((a, b)); poly["exact"] = False
+        elif ln.startswith("ORDER"):
+            r.order = [int(x) for x in ln.split()[1:]]
         elif ln.startswith("META "):
             r.meta = {k: int(v) for k, v in (x.split("=") for x in ln.split()[1:])}
         elif ln.startswith("ROOT ") or ln.startswith("ACCA "):
